@@ -12,6 +12,37 @@ use std::time::Instant;
 
 pub const DEFAULT_SEED: u64 = 20_260_917;
 
+/// progress counter for the stall watchdog of in-process checks (a generation call that never
+/// returns would otherwise hang the check forever; totality itself is C09's property and is decided
+/// in supervised child processes)
+pub static PROGRESS: AtomicU64 = AtomicU64::new(0);
+
+pub fn tick() {
+    PROGRESS.fetch_add(1, Ordering::Relaxed);
+}
+
+pub fn start_stall_watchdog() {
+    let limit: u64 = std::env::var("PFSIM_STALL_S").ok().and_then(|s| s.parse().ok()).unwrap_or(420);
+    std::thread::spawn(move || {
+        let mut last = PROGRESS.load(Ordering::Relaxed);
+        let mut idle = 0u64;
+        loop {
+            std::thread::sleep(std::time::Duration::from_secs(5));
+            let now = PROGRESS.load(Ordering::Relaxed);
+            if now == last {
+                idle += 5;
+                if idle >= limit {
+                    eprintln!("HARNESS ERROR: no run finished for {} s - a generation call appears to hang or crawl (totality is property C09; run ./check C09 quick)", idle);
+                    std::process::exit(2);
+                }
+            } else {
+                idle = 0;
+                last = now;
+            }
+        }
+    });
+}
+
 pub fn verif_seed() -> u64 {
     std::env::var("VERIF_SEED")
         .ok()
@@ -620,6 +651,7 @@ pub struct Pattern {
 pub const OBJECTIVES: [&str; 5] = ["nesting-depth", "stack-depth", "open-marks", "memo-size", "output-bytes"];
 
 fn probe_pattern(p: u8, pat: &[u8]) -> [u32; 5] {
+    tick();
     let probe = 800usize;
     let mut c = Config::default_for(p);
     c.min_opcodes = probe;
@@ -648,6 +680,35 @@ fn probe_pattern(p: u8, pat: &[u8]) -> [u32; 5] {
         }
     }
     [m.max_depth, max_stack, max_marks, max_memo, b.len() as u32]
+}
+
+/// when PFSIM_PROBE_PROGRESS is set (the isolated probing child of the C09 check) every probe is
+/// announced on stdout, so that a probe that kills or hangs the child can be attributed
+fn probe_progress(i: usize, p: &u8, pat: &[u8], begin: bool) {
+    use std::io::Write;
+    use std::sync::OnceLock;
+    static ON: OnceLock<bool> = OnceLock::new();
+    if *ON.get_or_init(|| std::env::var("PFSIM_PROBE_PROGRESS").is_ok()) {
+        let o = std::io::stdout();
+        let mut o = o.lock();
+        let _ = writeln!(o, "{} {} {} {}", if begin { "PB" } else { "PE" }, i, p, desc::hex(pat));
+        let _ = o.flush();
+    }
+}
+
+/// the probe run of a pattern as a scenario (for attributing a death or hang of the probing child)
+pub fn probe_scenario(p: u8, pat: &[u8]) -> Scenario {
+    let probe = 800usize;
+    let mut c = Config::default_for(p);
+    c.min_opcodes = probe;
+    c.max_opcodes = probe;
+    let script: Vec<u8> = if pat.is_empty() { vec![] } else { (0..probe + 64).map(|j| pat[j % pat.len()]).collect() };
+    Scenario::solo(c, Entropy::Bytes(script))
+}
+
+/// compute the probe table now (used by the isolated probing child)
+pub fn force_deep_patterns(seed: u64) -> usize {
+    deep_patterns(seed).len()
 }
 
 fn deep_patterns(seed: u64) -> &'static Vec<Pattern> {
@@ -702,7 +763,9 @@ fn deep_patterns(seed: u64) -> &'static Vec<Pattern> {
                         let mut i = t;
                         while i < cands.len() {
                             let (p, pat) = &cands[i];
+                            probe_progress(i, p, pat, true);
                             out.push((i, Pattern { protocol: *p, pat: pat.clone(), score: probe_pattern(*p, pat) }));
+                            probe_progress(i, p, pat, false);
                             i += nt;
                         }
                         out
@@ -759,10 +822,15 @@ fn deep_schedule(seed: u64) -> &'static Vec<(usize, usize)> {
 
 /// write the probe table to a file and export its path for worker processes
 pub fn export_deep_patterns(seed: u64) {
-    let pats = deep_patterns(seed);
     let dir = format!("{}/target/tmp", verif_root());
     let _ = std::fs::create_dir_all(&dir);
     let path = format!("{}/deep-patterns-{}.json", dir, std::process::id());
+    export_deep_patterns_to(seed, &path);
+}
+
+pub fn export_deep_patterns_to(seed: u64, path: &str) {
+    let pats = deep_patterns(seed);
+    let path = path.to_string();
     let doc = json!({"seed": seed.to_string(), "patterns": pats.iter().map(|p| json!([p.protocol, desc::hex(&p.pat), p.score.to_vec()])).collect::<Vec<_>>()});
     if std::fs::write(&path, doc.to_string()).is_ok() {
         std::env::set_var("PFSIM_DEEP_FILE", &path);
@@ -878,6 +946,7 @@ pub fn deep_scenario(spec: &SoloSpec, seed: u64, tier: Tier, k: u64) -> Scenario
 
 pub fn run_one(spec: &SoloSpec, seed: u64, tier: Tier, i: u64, runs: u64, stats: &mut Stats) -> (Scenario, Vec<Violation>) {
     let sc = scenario_of(spec, seed, tier, i, runs);
+    tick();
     if i >= runs + deep_count(spec, tier) + soak_count(spec, tier) {
         stats.bump("fault.cut.enumerated_short_script(runs)");
     } else if i >= runs + deep_count(spec, tier) {
@@ -1430,6 +1499,7 @@ fn tree_run(protocol: u8, script: &[u8], depth: usize, trace: Trace) -> (Scenari
     padded.extend_from_slice(&[0u8; 96]);
     let sc = Scenario::solo(tree_config(protocol, depth), Entropy::Bytes(padded.clone()));
     let recs = exec::run_scenario(&sc, trace, false);
+    tick();
     let mut ops = vec![];
     let mut consumed = script.len();
     if let Some(r) = recs.first() {
